@@ -48,6 +48,7 @@ def returned_locals(node, names):
 def run(ctx, R):
     F = ctx.facts()
     choice_sequence_order(F, R)
+    first_entry_flags(F, R)
     R.rule("RF9/RF10 canonical-key routing; RF3/RF4 float interning; RF1 lookup sites; RF1 construction vs removal; RF10 index_term")
 
     # ---- R1: routing ----------------------------------------------------------------------------
@@ -343,3 +344,80 @@ def choice_sequence_order(F, R):
                      "so calls with that key see the clauses in the wrong order" % (short(p), x["ln"]), F.where(p))
                 k += 1
     R.floor("two-clause choice sequence constructions", n, 5)
+
+
+def first_entry_flags(F, R, prefix="C06", only=None):
+    """The compiler's per-key choice sequences (`index_list`, `index_constant`, `index_structure` of CodeOffsets) start with
+    a `try`-kind entry and continue with `retry`-kind ones; which one is computed by `compute_index(is_initial, ..)`. The
+    flag must be the emptiness of the very sequence the entry is pushed onto — in particular for the second,
+    *overlapping* key of an integer that has two spellings (C05). MIR def-use: push_back(recv, v): v <- compute_index(f, ..),
+    f <- is_empty(r) with root(r) == root(recv)."""
+    fns = [p for p, it in F.items.items() if it["file"] == "src/indexing.rs" and it["kind"] == "AssocFn" and re.search(r"CodeOffsets(::<.*?>)?::index_(list|constant|structure)$", p)]
+    if only:
+        fns = [p for p in fns if p.endswith(only)]
+    n = 0
+    for fn in sorted(fns):
+        mir = F.mir(fn)
+        defs = {}
+        for bi, b in enumerate(mir["blocks"]):
+            for s in b["s"]:
+                if len(s.get("l", [])) == 1:
+                    defs.setdefault(s["l"][0], []).append(("stmt", s["rv"]))
+            t = b["t"]
+            if t.get("k") == "Call" and t.get("dest") and len(t["dest"].get("p", t["dest"]) if isinstance(t["dest"], dict) else t["dest"]) == 1:
+                d = t["dest"]["p"][0] if isinstance(t["dest"], dict) else t["dest"][0]
+                defs.setdefault(d, []).append(("call", t))
+
+        def src(local, depth=0):
+            """canonical origin of a temporary"""
+            ds = defs.get(local, [])
+            if len(ds) != 1 or depth > 12:
+                return "local:%s" % local
+            kind, x = ds[0]
+            if kind == "call":
+                a0 = x["args"][0] if x.get("args") else None
+                inner = src(a0["p"][0], depth + 1) + "".join(str(q) for q in a0["p"][1:]) if a0 and "p" in a0 else ""
+                return "call:%s(%s)" % (short(callee_of(x)), inner) if re.search(r"Indexer::(lists|constants|structures)$", callee_of(x)) else "local:%s" % local
+            p = x.get("p") if x.get("k") == "Ref" else (x.get("a") or {}).get("p") if x.get("k") == "Use" else None
+            if not p:
+                return "local:%s" % local
+            if len(p) == 1:
+                return src(p[0], depth + 1)
+            if p[1:] == ["*"]:
+                return src(p[0], depth + 1)
+            return src(p[0], depth + 1) + "".join(str(q) for q in p[1:]) if p[0] != 1 else "self" + "".join(str(q) for q in p[1:])
+
+        def producer(arg, rx):
+            """the call whose result reaches `arg` through plain moves"""
+            seen = 0
+            while arg and "p" in arg and len(arg["p"]) == 1 and seen < 12:
+                ds = defs.get(arg["p"][0], [])
+                if len(ds) != 1:
+                    return None
+                kind, x = ds[0]
+                if kind == "call":
+                    return x if re.search(rx, callee_of(x)) else None
+                if x.get("k") != "Use":
+                    return None
+                arg = x.get("a")
+                seen += 1
+            return None
+        k = 0
+        for b in mir["blocks"]:
+            t = b["t"]
+            if t.get("k") != "Call" or not re.search(r"VecDeque::<.*>::push_back$", callee_of(t)):
+                continue
+            ci = producer(t["args"][1], r"Indexer::compute_index$")
+            if ci is None:
+                continue
+            n += 1
+            ie = producer(ci["args"][0], r"VecDeque::<.*>::is_empty$")
+            recv = src(t["args"][0]["p"][0]) if "p" in t["args"][0] else "?"
+            tested = src(ie["args"][0]["p"][0]) if ie is not None and "p" in ie["args"][0] else None
+            R.ob("%s:first-entry-flag-from-the-sequence-pushed-to:%s@%d" % (prefix, short(fn), k), tested is not None and tested == recv,
+                 "%s pushes an entry (line %s) whose try/retry kind was computed from the emptiness of %s, but the entry goes onto %s: a key whose own sequence is "
+                 "non-empty gets a second `try`, or an empty one starts with `retry` (for the overlapping spelling of an integer key the call then reaches unreachable!())"
+                 % (short(fn), t["ln"], tested or "something other than an is_empty() test", recv), F.where(fn))
+            R.sample({"fn": short(fn), "line": t["ln"], "pushed_to": recv, "flag_from": tested})
+            k += 1
+    R.floor("%s: per-key choice sequence pushes" % prefix, n, 4 if not only else 2)
